@@ -647,7 +647,9 @@ def rule_R9(res, prog):
         def hands_on(x):
             return any(m.get("k") == "bin" and m["op"] == "=" and cu.ftext(strip(m["l"]) or {}).replace("(", "").replace(")", "") == "*keys" and
                        (strip(m["r"]) or {}).get("k") == "var" for m in walk(x))
-        esc = cu.escapes(fn, (bid, idx), lambda x: id(x) in loop_cmp, target_expr=hands_on)
+        # an edge on which the list cursor is known to be NULL hands on no key (the code behind it reports `not found`)
+        esc = cu.escapes(fn, (bid, idx), lambda x: id(x) in loop_cmp, target_expr=hands_on,
+                         exempt_edge=lambda b_, k_: any(txt == "lkey" and not tr for (txt, tr) in cu.edge_atoms(b_, k_)))
         f_ = None
         if esc is not None:
             f_ = Finding(PROP, rid, fn.name, "key taken from the list tail after the unlocked callback",
